@@ -169,7 +169,7 @@ def one_build(ctx, res, w, assign, out_state, out_ext, lines, expect, cases, con
         if any((x >> 2) != (y >> 2) for r1, r2 in zip(a, b) for x, y in zip(r1, r2)):
             res.fail(key, 'the label image of an existing .p8.png OUT was not kept', inp)
     expect.append('ok ' + ' '.join(('F%d' % (SECS.index(s) + 1)) if assign[s] in ('p8', 'png', 'lua') else ('E' if assign[s] == 'e' else ('O' if prev is not None else 'E'))
-                                   for s in SECS))
+                                   for s in SECS) + (' O' if prev is not None else ' E'))      # (last field: the label is OUT's own, or the empty default)
     res.nontrivial.add((tuple(assign[s] for s in SECS), out_state, out_ext))
 
 
